@@ -140,6 +140,23 @@ def gen_cases(tier: str, seed: int):
     for wc in (False, True):
         yield {"kind": "history", "history": ft, "stride": 3 if tier == "quick" else 1, "offset": int(wc), "with_conn": wc,
                "expect_rows": {"DB1.S1.T1": "(2, 'b')"}, "expect_exact": {"DB1.S1.T1": ["(1, 'a')", "(2, 'b')"]}, "expect_no_table": ["DB1.S1.MADE_IN_TXN"]}
+    # statements that fail in autocommit (the application catches the error and carries on) are followed by more work: everything
+    # acknowledged afterwards is committed work like everything before
+    fa = ["CREATE TABLE T1 (ID INT, S VARCHAR(10)) COMMENT = 'first'", "INSERT INTO T1 VALUES (1, 'a')",
+          "#TRY CREATE TABLE T1 (ID INT, S VARCHAR(5)) COMMENT = 'again'", "INSERT INTO T1 VALUES (2, 'b')",
+          "#TRY CREATE VIEW V_BAD AS SELECT * FROM NO_SUCH_TABLE_18", "CREATE TABLE AFTER_T (ID INT, NOTE VARCHAR(4)) COMMENT = 'made after'",
+          "INSERT INTO AFTER_T VALUES (1, 'ok')", "#TRY ALTER TABLE NO_SUCH_TABLE_18 ADD COLUMN C VARCHAR(3)", "#TRY COMMENT ON TABLE NO_SUCH_SCHEMA_18.T IS 'x'",
+          "#TRY INSERT INTO T1 VALUES ('not a number', 'x')", "INSERT INTO T1 VALUES (3, 'c')"]
+    for wc in (False, True):
+        yield {"kind": "history", "history": fa, "stride": 3 if tier == "quick" else 1, "offset": int(wc), "with_conn": wc,
+               "expect_rows": {"DB1.S1.T1": "(3, 'c')", "DB1.S1.AFTER_T": "(1, 'ok')"}, "expect_exact": {"DB1.S1.T1": ["(1, 'a')", "(2, 'b')", "(3, 'c')"]},
+               "expect_comments": [["S1", "AFTER_T", "made after"], ["S1", "T1", "first"]]}
+    # comments of views are Snowflake-side metadata like those of tables: a later process finds them
+    vc = ["CREATE TABLE T1 (ID INT, S VARCHAR(10)) COMMENT = 'first'", "INSERT INTO T1 VALUES (1, 'a')", "CREATE VIEW V1 COMMENT = 'declared with the view' AS SELECT ID FROM T1",
+          "CREATE VIEW V2 AS SELECT S FROM T1", "COMMENT ON VIEW V2 IS 'commented later'", "CREATE VIEW V3 AS SELECT ID, S FROM T1", "ALTER VIEW V3 SET COMMENT = 'set by alter'",
+          "INSERT INTO T1 VALUES (2, 'b')"]
+    yield {"kind": "history", "history": vc, "stride": 3 if tier == "quick" else 1, "offset": 1, "with_conn": False, "expect_rows": {"DB1.S1.T1": "(2, 'b')"},
+           "expect_comments": [["S1", "T1", "first"], ["S1", "V1", "declared with the view"], ["S1", "V2", "commented later"], ["S1", "V3", "set by alter"]]}
     # a TRANSIENT table is a permanent table (no fail-safe period): it is there for the next process like any other
     tr = ["CREATE TABLE T1 (ID INT, S VARCHAR(10)) COMMENT = 'first'", "INSERT INTO T1 VALUES (1, 'a')",
           "CREATE TRANSIENT TABLE TR1 (ID INT, NOTE VARCHAR(9)) COMMENT = 'transient'", "INSERT INTO TR1 VALUES (5, 'kept')",
